@@ -93,6 +93,9 @@ def case_term(op, res):
         return "CCmp %d %d %d %d %s" % (op[1], op[2], op[3], op[4], C.coq_list([C.coq_bool(x) for x in res]))
     if k == "inf":
         return "CInf %d %d" % (res[0], res[1])
+    if k == "heap":
+        return "CHeap %s %s" % (C.coq_list(["(%d, %d)" % (q, r) for q, r in op[1]]),
+                                C.coq_list(["%d%%nat" % i for i in res]))
 
 
 def ulp(x):
@@ -168,7 +171,39 @@ def oracle(op, res):
         return None if list(res) == exp else "comparison %r != exact %r" % (res, exp)
     if k == "inf":
         return None if b2f(res[0]) == b2f(res[1]) == math.inf else "inf constant"
+    if k == "heap":
+        vals = [Fr(b2f(q)) + Fr(b2f(r)) for q, r in op[1]]
+        if sorted(res) != list(range(len(vals))):
+            return "heap did not return every event once: %r" % (res,)
+        for a, b in zip(res, res[1:]):
+            if vals[b] < vals[a]:
+                return "C heap returned time %s before the smaller time %s" % (float(vals[a]), float(vals[b]))
+        return None
     return None
+
+
+def heap_ops(ctx, n):
+    """times pushed to the real C heap (heap.c compares quotient, then remainder) and popped completely: times that
+    differ by less than the float resolution of their sum, across quotient boundaries, at large quotients"""
+    rng = ctx.rng
+    ops = []
+    for _ in range(n):
+        k = rng.randrange(3, 9)
+        q0 = float(rng.choice([0, 1, 57854, 2 ** 20, 2 ** 31, 2 ** 40, 2 ** 52 - 4]))
+        ts = []
+        for _ in range(k):
+            u = rng.random()
+            if u < 0.4:
+                q, r = q0, rng.choice([0.9999, 0.5, 0.25]) + rng.randrange(0, 64) * 2.0 ** -53
+            elif u < 0.6:
+                q, r = q0 + 1, rng.randrange(0, 8) * 2.0 ** -60
+            elif u < 0.8:
+                q, r = q0, PRED1 - rng.randrange(0, 8) * 2.0 ** -53
+            else:
+                q, r = q0 + rng.randrange(0, 3), rng.random()
+            ts.append([f2b(q), f2b(min(r, PRED1))])
+        ops.append(["heap", ts])
+    return ops
 
 
 def monotone_pairs(ctx, n):
@@ -196,14 +231,14 @@ def run_impl(ctx, ops):
 
 
 def run(ctx, ops_override=None):
-    C.build_scratch(ctx)
+    C.build_scratch(ctx, exts=("heap",))
     broken = []
     ok, out, nthm = C.check_props(ctx)
     if not ok:
         broken.append("Props/C14.v does not check: " + out[-600:])
     n = ctx.n(4000, 200000)
     corpus = load_corpus()
-    ops = ops_override if ops_override is not None else corpus + gen_ops(ctx, n)
+    ops = ops_override if ops_override is not None else corpus + gen_ops(ctx, n) + heap_ops(ctx, ctx.n(300, 5000))
     mono = [] if ops_override is not None else monotone_pairs(ctx, ctx.n(500, 20000))
     res = run_impl(ctx, ops + mono)
     res_main, res_mono = res[:len(ops)], res[len(ops):]
@@ -236,7 +271,7 @@ def run(ctx, ops_override=None):
     kinds = {}
     for op in allops:
         kinds[op[0]] = kinds.get(op[0], 0) + 1
-    distinct = len({tuple(op) for op in allops})
+    distinct = len({json_key(op) for op in allops})
     if fails:
         i, m = fails[0]
         C.violation(ctx, "oracle", {"kind": "c14-ops", "ops": [allops[i]] if allops[i][0] != "add" or i < len(ops)
@@ -268,6 +303,11 @@ def run(ctx, ops_override=None):
                        "jellyfysh.base.time.Time evaluated in Coq; exact-rational oracle on the implementation" % nthm,
         "trusted_base": TRUSTED,
     }, ASSUME)
+
+
+def json_key(op):
+    import json
+    return json.dumps(op)
 
 
 TRUSTED = [
